@@ -880,10 +880,19 @@ impl Parser for BlockStatement {
 impl Parser for Statement {
     fn parse<'a>(this: Option<&Self>, input: TokenStream<'a>) -> IResult<'a, Self> {
         fn parse_error(input: TokenStream) -> IResult<Statement> {
+            // If there is nothing to ignore, the comments must not be consumed either.
+            // They belong to whatever comes next, e.g. the next global declaration.
+            let original_input = input.clone();
             let (input, ((_, ignored), mut info)) = info(tuple((
                 many0(comment),
                 ignore_until1(peek(look_ahead::stmt)),
-            )))(input)?;
+            )))(input)
+            .map_err(|_| {
+                nom::Err::Error(ParserError {
+                    input: original_input,
+                    kind: crate::error::ParserErrorKind::IgnoreUntil,
+                })
+            })?;
             let err = SplError(
                 info.to_range(),
                 ParseErrorMessage::UnexpectedCharacters(
